@@ -251,6 +251,7 @@ func (p *c10) roundTrip(x *res, item val.Item, ctx *runner.Ctx) {
 		p.readPurity(x, adapter, cl, spec.Name, key, it, ctx)
 		p.copiesAreCopies(x, adapter, cl, spec.Name, key, it, ctx)
 		p.refusedWrites(x, adapter, cl, spec.Name, key, it, ctx)
+		p.overwriteWithOtherEmpties(x, adapter, cl, spec.Name, key, it, ctx)
 	}
 }
 
@@ -312,6 +313,86 @@ func (p *c10) copiesAreCopies(x *res, adapter string, cl adapt.Client, table str
 				}
 				x.viol("source-of-a-copy-changed", adapter+"/"+string(v.K), fmt.Sprintf("[%s] after UpdateItem %q (derives / changes another attribute) the attribute %s reads %s; it was written as %s", adapter, st.Update, a, got.Item[a].Canon(), v.Canon()),
 					map[string]interface{}{"adapter": adapter, "item": it, "update": st, "attribute": a})
+				return
+			}
+		}
+	}
+}
+
+// rotateEmpties replaces every EMPTY value by the empty value of another type (S "" -> L [] -> M {} -> B "" -> S "")
+// at any depth; everything else stays. changed reports whether the item contains such a value at all.
+func rotateEmpties(v val.V, changed *bool) val.V {
+	switch {
+	case v.K == val.KS && v.Str == "":
+		*changed = true
+		return val.List()
+	case v.K == val.KL && len(v.L) == 0:
+		*changed = true
+		return val.Map(map[string]val.V{})
+	case v.K == val.KM && len(v.M) == 0:
+		*changed = true
+		return val.Bin("")
+	case v.K == val.KB && v.Str == "":
+		*changed = true
+		return val.Str("")
+	case v.K == val.KL:
+		o := val.V{K: val.KL, L: []val.V{}}
+		for _, e := range v.L {
+			o.L = append(o.L, rotateEmpties(e, changed))
+		}
+		return o
+	case v.K == val.KM:
+		o := val.V{K: val.KM, M: map[string]val.V{}}
+		for k, e := range v.M {
+			o.M[k] = rotateEmpties(e, changed)
+		}
+		return o
+	}
+	return v
+}
+
+// overwriteWithOtherEmpties: the item is put again with every empty value replaced by the empty value of ANOTHER
+// type (an empty string becomes an empty list, an empty list an empty map ...), everything else identical: the
+// second write is a write like any other - reads return the new types - and so is the write back.
+func (p *c10) overwriteWithOtherEmpties(x *res, adapter string, cl adapt.Client, table string, key, it val.Item, ctx *runner.Ctx) {
+	pre := cl.Do(adapt.Op{Kind: adapt.OpGet, Table: table, Key: key})
+	if pre.Class != adapt.ClsOK || pre.Item == nil {
+		return
+	}
+	orig := val.Item{}
+	for k, v := range it {
+		orig[k] = v
+	}
+	changed := false
+	variant := val.Item{}
+	for k, v := range orig {
+		if k == "h" || k == "r" {
+			variant[k] = v
+			continue
+		}
+		variant[k] = rotateEmpties(v, &changed)
+	}
+	if !changed {
+		return
+	}
+	for round, w := range []val.Item{variant, orig} {
+		o := cl.Do(adapt.Op{Kind: adapt.OpPut, Table: table, Item: w})
+		x.r.Evals++
+		x.r.Counters["overwrites_that_change_only_empty_types"]++
+		if o.Class != adapt.ClsOK {
+			return // an empty value the library refuses (not this rule's business)
+		}
+		got := cl.Do(adapt.Op{Kind: adapt.OpGet, Table: table, Key: key})
+		sc := cl.Do(adapt.Op{Kind: adapt.OpScan, Table: table})
+		for _, back := range []val.Item{got.Item, func() val.Item {
+			if len(sc.Items) == 1 {
+				return sc.Items[0]
+			}
+			return nil
+		}()} {
+			if !val.ItemsEqual(back, w) && len(modelQuirkNames(back, w)) == 0 {
+				x.viol("overwrite-changing-empty-types-lost", fmt.Sprintf("%s/round%d", adapter, round), fmt.Sprintf("[%s] the item was put again with its empty values changed to the empty value of another type; a read returns %s", adapter, diffAttrs(back, w)),
+					map[string]interface{}{"adapter": adapter, "first": orig, "second": variant, "returned": back, "round": round})
 				return
 			}
 		}
